@@ -115,7 +115,7 @@ def run_spec(spec, props=("C01", "C02")):
             t_after = tmin + (sg.ordinal + 1)  # clock value after this waiting time (delta = 1)
             if sg.ordinal == 0 and st != s_init:
                 A.add(V(main, fn, cls, "initial_state", "simulation starts in %r, request means %r" % (st, s_init), sg.prefix, st, s_init))
-            if abs(sg.rate - RT) > TOL * max(1.0, RT):
+            if abs(sg.rate - RT) > TOL * max(abs(sg.rate), abs(RT)):     # relative: rates of any magnitude
                 A.add(V(main, fn, cls, "clock_rate", "state %r: waiting time drawn with rate %r, chain has total rate %r" % (st, sg.rate, RT), sg.prefix, sg.rate, RT))
             should_end = (RT <= 0) or (t_after >= tmax)
             succ = {}
@@ -130,7 +130,7 @@ def run_spec(spec, props=("C01", "C02")):
                 else:
                     nxt = lf[1]
                     succ[nxt] = succ.get(nxt, 0.0) + p
-                    if lf[0] == "END" and sum(rates(nxt).values()) > TOL:
+                    if lf[0] == "END" and sum(rates(nxt).values()) > 0:
                         A.add(V(main, fn, cls, "ends_early", "after %r -> %r the run ends without drawing a waiting time although the chain can still move" % (st, nxt), sg.prefix))
             for nxt, p in succ.items():
                 A.trans.add((st, nxt))
